@@ -597,10 +597,9 @@ def run(ctx):
         # exhaustive up to 3 units x 4 steps (capped per program)
         big = []
         for fam in ("threads", "tasks", "mixed"):
-            for _ in range(6):
+            for _ in range(4):
                 p = gen_program(rng, 3, fam)
-                p["codes"] = [c[:8] if False else c for c in p["codes"]]
-                for sc in all_schedules(p["codes"], 3000):
+                for sc in all_schedules(p["codes"], 1500):
                     big.append(dict(p, sched=sc))
         for k in range(0, len(big), 2000):
             evaluate(ctx, big[k:k + 2000], "exhaustive3")
